@@ -126,6 +126,7 @@ theorem filter_succk_length (k : Nat) (log : List (Tid × Res)) :
       | find _ _ _ => simp [isSuccK] at he
       | trav _ _ => simp [isSuccK] at he
       | misuse => simp [isSuccK] at he
+      | threw _ => simp [isSuccK] at he
     · exact ih
 
 /-- unique containers: at most one insert of a key reports success; exactly one once any insert of it has returned -/
@@ -153,6 +154,7 @@ theorem one_winner_k {cfg : Cfg} {s : St} (h : KInv cfg s) (hm : cfg.multi = fal
     | find _ _ _ => simp [isSuccK] at hs
     | trav _ _ => simp [isSuccK] at hs
     | misuse => simp [isSuccK] at hs
+    | threw _ => simp [isSuccK] at hs
   have hle : (s.log.filter (isSuccK k)).length ≤ 1 := by
     rw [← filter_succk_length]
     refine length_le_one_of_all_eq hnd ?_
@@ -180,6 +182,7 @@ theorem one_winner_k {cfg : Cfg} {s : St} (h : KInv cfg s) (hm : cfg.multi = fal
     | find _ _ _ => simp [isInsK] at hi
     | trav _ _ => simp [isInsK] at hi
     | misuse => simp [isInsK] at hi
+    | threw _ => simp [isInsK] at hi
   obtain ⟨n, hw, hkn⟩ := hnode
   rw [h.wins] at hw
   simp only [List.mem_filterMap] at hw
@@ -201,6 +204,7 @@ theorem one_winner_k {cfg : Cfg} {s : St} (h : KInv cfg s) (hm : cfg.multi = fal
     | find _ _ _ => simp [succNodeK] at hsn
     | trav _ _ => simp [succNodeK] at hsn
     | misuse => simp [succNodeK] at hsn
+    | threw _ => simp [succNodeK] at hsn
   have : 0 < (s.log.filter (isSuccK k)).length := List.length_pos_of_mem hin
   omega
 
